@@ -1,9 +1,249 @@
-"""C10 - a sub-query renders the same wherever it is embedded (obligations nonint/flags, embed/site;
-see positions.py and contracts/spec/positions.py)."""
-from .positions import generate_for
+"""C10 - a sub-query renders the same wherever it is embedded.
+
+nonint/flags, embed/site   see positions.py and contracts/spec/positions.py: no position flag passed to a nested render
+                           depends on the embedding position of the statement; embedding sites pass the prescribed flags.
+nonint/text                in every statement builder's get_sql the incoming position flags (subquery, with_alias,
+                           subcriterion, with_namespace) influence the text only through the enclosing brackets
+                           (subquery) and the alias suffix (with_alias): after removing exactly these two outermost
+                           forms, no path condition, no conditional in the result shape and no guard of a nested render
+                           mentions a position flag."""
+from __future__ import annotations
+
+import z3
+
+from ..driver import run_function
+from ..front import repo
+from ..oblig import PROVED, REFUTED, UNKNOWN, UNSUPPORTED, Obligation
+from ..values import CallA, Dyn, IteA, JoinA, Lit, OpA, QuoteA, S
+from .base import classes_using, parallel
+from .positions import generate_for, shape_of
+from .render import flat_calls
 
 PROP = "C10"
+POSITION = ("ctx.subquery", "ctx.with_alias", "ctx.subcriterion", "ctx.with_namespace")
+STATEMENTS = ("queries.QueryBuilder", "queries._SetOperation", "queries.CreateQueryBuilder",
+              "queries.DropQueryBuilder")
+
+
+def _atoms(f, acc):
+    if z3.is_const(f) and f.decl().kind() == z3.Z3_OP_UNINTERPRETED:
+        acc.add(f.decl().name())
+    for c in f.children():
+        _atoms(c, acc)
+    return acc
+
+
+def pos_atoms(f):
+    return sorted(a for a in _atoms(f, set()) if a in POSITION or any(a.startswith(p + "!") or a == "truthy!" + p
+                                                                       for p in POSITION))
+
+
+def deep_collapse(ex, atoms, pc, subs=()):
+    """the shape under the assumptions pc with the position flags replaced by constants (subs): decided conditionals
+    are replaced by the taken branch, at every depth"""
+    out = []
+    for a in atoms:
+        if isinstance(a, IteA):
+            c = z3.simplify(z3.substitute(a.c, *subs)) if subs else a.c
+            if z3.is_true(c) or (not z3.is_false(c) and ex.smt.implied(pc, c)):
+                out.extend(deep_collapse(ex, a.a, pc, subs))
+            elif z3.is_false(c) or ex.smt.implied(pc, z3.Not(c)):
+                out.extend(deep_collapse(ex, a.b, pc, subs))
+            else:
+                out.append(IteA(c, tuple(deep_collapse(ex, a.a, pc + [c], subs)),
+                                tuple(deep_collapse(ex, a.b, pc + [z3.Not(c)], subs))))
+        elif isinstance(a, JoinA):
+            out.append(JoinA(tuple(deep_collapse(ex, a.sep, pc, subs)), a.seq,
+                             tuple(deep_collapse(ex, a.body, pc, subs)), a.lid))
+        elif isinstance(a, QuoteA):
+            out.append(QuoteA(tuple(deep_collapse(ex, a.inner, pc, subs)), a.q))
+        elif isinstance(a, OpA):
+            out.append(OpA(a.op, tuple(S(tuple(deep_collapse(ex, x.atoms, pc, subs))) if isinstance(x, S) else x
+                                       for x in a.args)))
+        else:
+            out.append(a)
+    # merge adjacent literals
+    merged = []
+    for a in out:
+        if isinstance(a, Lit) and merged and isinstance(merged[-1], Lit):
+            merged[-1] = Lit(merged[-1].s + a.s)
+        elif not (isinstance(a, Lit) and a.s == ""):
+            merged.append(a)
+    return merged
+
+
+def text_under(ex, atoms, pc, flags):
+    """repr of the shape when the position flags have the given truth values"""
+    extra, subs = [], []
+    for name, val in flags.items():
+        at = ex.smt.atom(name)
+        extra.append(at if val else z3.Not(at))
+        subs.append((at, z3.BoolVal(val)))
+    if not ex.smt.feasible(list(pc) + extra):
+        return None
+    return deep_collapse(ex, atoms, list(pc) + extra, tuple(subs))
+
+
+def depends_on(ex, pc, f, flags=POSITION):
+    """position flags whose value can change the truth of f on a state satisfying pc"""
+    out = []
+    for name in flags:
+        at = ex.smt.atom(name)
+        ft = z3.substitute(f, (at, z3.BoolVal(True)))
+        ff = z3.substitute(f, (at, z3.BoolVal(False)))
+        if ex.smt.feasible(list(pc) + [z3.Xor(ft, ff)]):
+            out.append(name)
+    return out
+
+
+def compare_positions(ex, atoms, pc, bad):
+    base = {"ctx.subquery": False, "ctx.with_alias": False, "ctx.subcriterion": False, "ctx.with_namespace": False}
+    t0 = text_under(ex, atoms, pc, base)
+    if t0 is None:
+        return
+    ok, why = related(ex, atoms, pc, base, "ctx.subquery", bracket_rel)
+    if not ok:
+        bad.append(f"embedded as a sub-query the text is not the stand-alone text in brackets: {why}")
+    ok, why = related(ex, atoms, pc, base, "ctx.with_alias", alias_rel)
+    if not ok:
+        bad.append(f"with the alias requested the text is not the stand-alone text plus the alias: {why}")
+    for flag in ("ctx.subcriterion", "ctx.with_namespace"):
+        ok, why = related(ex, atoms, pc, base, flag, lambda a, b: repr(a) == repr(b))
+        if not ok:
+            bad.append(f"the text depends on the incoming {flag}: {why}")
+    if pos_text(repr(t0)):
+        bad.append(f"a conditional on a position flag remains in the text: {pos_text(repr(t0))}")
+
+
+def _peel(t1):
+    """t1 without a leading '(' and a trailing ')' (None when it has none)"""
+    t = list(t1)
+    if not t or not isinstance(t[0], Lit) or not t[0].s.startswith("(") or not isinstance(t[-1], Lit) or \
+            not t[-1].s.endswith(")"):
+        return None
+    if len(t) == 1:
+        return [Lit(t[0].s[1:-1])] if len(t[0].s) >= 2 else None
+    t[0] = Lit(t[0].s[1:])
+    t[-1] = Lit(t[-1].s[:-1])
+    return [x for x in t if not (isinstance(x, Lit) and x.s == "")]
+
+
+def _same_ite(x, y):
+    return isinstance(x, IteA) and isinstance(y, IteA) and repr(x.c) == repr(y.c)
+
+
+def bracket_rel(t1, t0) -> bool:
+    """t1 is t0, or t0 enclosed in brackets, or both are one and the same case distinction over related texts"""
+    if repr(t1) == repr(t0):
+        return True
+    p = _peel(t1)
+    if p is not None and repr(p) == repr(t0):
+        return True
+    if len(t1) == 1 and len(t0) == 1 and _same_ite(t1[0], t0[0]):
+        return bracket_rel(list(t1[0].a), list(t0[0].a)) and bracket_rel(list(t1[0].b), list(t0[0].b))
+    return False
+
+
+def alias_rel(t2, t0) -> bool:
+    """t2 is t0 followed by the alias suffix (or t0 itself), possibly under the same case distinction"""
+    r2, r0 = repr(t2), repr(t0)
+    if r2 == r0:
+        return True
+    if len(t2) >= len(t0) and repr(t2[:len(t0)]) == r0:
+        rest = repr(t2[len(t0):])
+        return "self.alias" in rest and not pos_text(rest)
+    if len(t2) == 1 and len(t0) == 1 and _same_ite(t2[0], t0[0]):
+        return alias_rel(list(t2[0].a), list(t0[0].a)) and alias_rel(list(t2[0].b), list(t0[0].b))
+    return False
+
+
+def split_condition(t0):
+    """a state condition of a top-level conditional of the text (to case-split on), or None"""
+    for a in t0:
+        if isinstance(a, IteA) and not pos_atoms(a.c):
+            return a.c
+    return None
+
+
+def related(ex, atoms, pc, base, flag, rel, depth=0):
+    """rel(text under flag=True, text under flag=False) on every case of the state conditions that shape the text"""
+    t0 = text_under(ex, atoms, pc, base)
+    t1 = text_under(ex, atoms, pc, dict(base, **{flag: True}))
+    if t0 is None or t1 is None or not t0:
+        return True, ""
+    if rel(t1, t0):
+        return True, ""
+    c = split_condition(t0) if depth < 10 else None
+    if c is None:
+        return False, _first_diff(repr(t0), repr(t1))
+    for cc in (c, z3.Not(c)):
+        if ex.smt.feasible(list(pc) + [cc]):
+            ok, why = related(ex, atoms, list(pc) + [cc], base, flag, rel, depth + 1)
+            if not ok:
+                return False, why
+    return True, ""
+
+
+def pos_text(txt):
+    import re
+    m = re.search(r"(truthy!)?ctx\.(subquery|with_alias|subcriterion|with_namespace)\b", txt)
+    return m.group(0) if m else ""
+
+
+def _first_diff(a, b):
+    i = next((k for k in range(min(len(a), len(b))) if a[k] != b[k]), min(len(a), len(b)))
+    return f"...{a[max(0, i - 40):i + 60]!r} vs ...{b[max(0, i - 40):i + 60]!r}"
+
+
+def check_text(cq):
+    r = repo()
+    ci = r.classes[cq]
+    fi = ci.resolve("get_sql")[1]
+    run = run_function(fi, ci)
+    name = f"{fi.short}@{ci.short}"
+    if run.error:
+        return [Obligation(PROP, f"{name}|nonint/text", "nonint/text", fi.short, UNSUPPORTED, reason=run.error)]
+    ex = run.ex
+    bad = []
+    n = 0
+    for o in run.outcomes:
+        ex.st = o.state
+        ex.frames = []
+        for i, p in enumerate(o.state.pc):
+            pa = depends_on(ex, list(o.state.pc[:i]), p) if pos_atoms(p) else []
+            if pa:
+                bad.append(f"a path of get_sql ({o.status}) exists only for some embedding positions: condition on {pa}")
+        if o.status != "return":
+            continue
+        n += 1
+        sh = shape_of(ex, o.value)
+        pc0 = list(o.state.pc)
+        if "ctx" in run.params:
+            try:
+                pc0.append(ex.truth(run.params["ctx"]))
+            except Exception:
+                pass
+        compare_positions(ex, list(sh.atoms), pc0, bad)
+        for ef, g, _l in flat_calls(o.state.effects):
+            if g is not None and pos_atoms(g) and depends_on(ex, pc0, g):
+                bad.append(f"the nested render {ef.method} of {ex.ident(ef.recv) if ef.recv is not None else '?'} is "
+                           f"evaluated only for some embedding positions: guard on {pos_atoms(g)}")
+    bad = sorted(set(bad))
+    return [Obligation(PROP, f"{name}|nonint/text", "nonint/text", fi.short, PROVED if not bad and n else REFUTED,
+                       detail="the embedding position influences the statement text only through the enclosing "
+                              f"brackets and the alias suffix ({n} returning paths)",
+                       reason="; ".join(bad[:3]) or ("" if n else "no returning path"),
+                       witness={"family": "call", "oracle": "embedding_text", "args": [ci.short]})]
 
 
 def generate(tier="quick"):
-    return generate_for(PROP, tier)
+    obs, meta = generate_for(PROP, tier)
+    r = repo()
+    items = []
+    for s in STATEMENTS:
+        base = r.cls(s)
+        for ci in r.classes.values():
+            if base in ci.mro and ci.resolve("get_sql") and ci.resolve("get_sql")[0] == "func":
+                items.append(ci.qual)
+    obs = list(obs) + parallel(check_text, sorted(set(items)))
+    return obs, meta
